@@ -256,6 +256,7 @@ type detScn struct {
 	CrashMs int      `json:"crash_at_ms"`
 	Freeze  bool     `json:"freeze"`
 	PreSusp bool     `json:"suspected_and_refuted_before_crash"`
+	Crash2  int      `json:"second_crash_after_ms,omitempty"` // > 0: member N-2 crashes this long after member N-1 (inside its detection)
 	Prefix  []int    `json:"choices"`
 	Devs    []string `json:"deviations,omitempty"`
 }
@@ -271,8 +272,9 @@ func runDetect(t *testing.T, s detScn) (x nExec) {
 	res := inBubble(t, func(b *bubble) {
 		crashAt := time.Duration(s.CrashMs) * time.Millisecond
 		B := s.bound(s.N)
+		lastCrash := crashAt + time.Duration(s.Crash2)*time.Millisecond
 		cfg := clusterCfg{N: s.N, L0: time.Millisecond, LatAlt: []time.Duration{240 * time.Millisecond}, AllowDrop: true, AllowDup: true,
-			FaultFrom: crashAt, FaultTo: crashAt + B, Horizon: crashAt + B + 2*time.Second, StreamAlt: s.Cfg.TCP,
+			FaultFrom: crashAt, FaultTo: lastCrash + B, Horizon: lastCrash + B + 2*time.Second, StreamAlt: s.Cfg.TCP,
 			Opts: func(i int, c *ml.Config) {
 				c.ProbeInterval = time.Second
 				c.ProbeTimeout = 500 * time.Millisecond
@@ -304,7 +306,19 @@ func runDetect(t *testing.T, s detScn) (x nExec) {
 				go func() { _, _ = c.nodes[i].M.Join([]string{nodeAddr(0)}) }()
 			})
 		}
-		victim := s.N - 1
+		type victimT struct {
+			idx     int
+			at      time.Duration
+			listed  map[int]bool
+			nAt     map[int]int
+			removed map[int]time.Duration
+		}
+		victims := []*victimT{{idx: s.N - 1, at: crashAt}}
+		if s.Crash2 > 0 {
+			victims = append(victims, &victimT{idx: s.N - 2, at: lastCrash})
+		}
+		nSurv := s.N - len(victims)
+		victim := victims[0].idx
 		if s.PreSusp {
 			// an earlier false alarm: node 0 hears that the victim is suspect, the victim refutes in time
 			c.at(crashAt-2500*time.Millisecond, "false-alarm", func() {
@@ -314,24 +328,27 @@ func runDetect(t *testing.T, s detScn) (x nExec) {
 				}
 			})
 		}
-		listedAtCrash := map[int]bool{}
-		nAtCrash := map[int]int{}
-		c.at(crashAt, "crash", func() {
-			for i := 0; i < s.N-1; i++ {
-				listedAtCrash[i] = listed(c.nodes[i].node, nodeName(victim))
-				nAtCrash[i] = len(c.nodes[i].M.VSnapshot().Recs)
-			}
-			c.nodes[victim].frozen = s.Freeze
-			c.crash(victim)
-		})
-		removedAt := map[int]time.Duration{}
+		for _, v := range victims {
+			v := v
+			v.listed, v.nAt, v.removed = map[int]bool{}, map[int]int{}, map[int]time.Duration{}
+			c.at(v.at, "crash", func() {
+				for i := 0; i < nSurv; i++ {
+					v.listed[i] = listed(c.nodes[i].node, nodeName(v.idx))
+					v.nAt[i] = len(c.nodes[i].M.VSnapshot().Recs)
+				}
+				c.nodes[v.idx].frozen = s.Freeze
+				c.crash(v.idx)
+			})
+		}
 		c.StepCheck = func(c *cluster) string {
-			if c.since() < crashAt {
-				return ""
-			}
-			for i := 0; i < s.N-1; i++ {
-				if _, ok := removedAt[i]; !ok && listedAtCrash[i] && !listed(c.nodes[i].node, nodeName(victim)) {
-					removedAt[i] = c.since() - crashAt
+			for _, v := range victims {
+				if c.since() < v.at {
+					continue
+				}
+				for i := 0; i < nSurv; i++ {
+					if _, ok := v.removed[i]; !ok && v.listed[i] && !listed(c.nodes[i].node, nodeName(v.idx)) {
+						v.removed[i] = c.since() - v.at
+					}
 				}
 			}
 			return ""
@@ -339,52 +356,54 @@ func runDetect(t *testing.T, s detScn) (x nExec) {
 		c.run()
 		x.Digest = c.digest()
 		worst := time.Duration(0)
-		for i := 0; i < s.N-1; i++ {
-			if !listedAtCrash[i] {
-				continue
-			}
-			Bi := s.bound(nAtCrash[i])
-			d, ok := removedAt[i]
-			if !ok || d > Bi {
-				x.Verdict = "crashed-member-not-removed-in-time"
-				x.Msg = fmt.Sprintf("%s still lists %s %v after the crash (bound %v, removed=%v at %v)", nodeName(i), nodeName(victim), c.since()-crashAt, Bi, ok, d)
-				return
-			}
-			if d > worst {
-				worst = d
-			}
-			leaves := 0
-			for _, ev := range c.nodes[i].Ev.Log {
-				if ev.Kind == "leave" && ev.Name == nodeName(victim) {
-					leaves++
+		for _, v := range victims {
+			for i := 0; i < nSurv; i++ {
+				if !v.listed[i] {
+					continue
 				}
-			}
-			if leaves != 1 {
-				x.Verdict, x.Msg = "leave-event-count", fmt.Sprintf("%s delivered %d leave events for the crashed member", nodeName(i), leaves)
-				return
-			}
-		}
-		// own evidence: some survivor declared the death itself
-		if !s.Cfg.Enc && len(listedAtCrash) > 0 {
-			own := false
-			for _, w := range c.Wire {
-				for _, l := range w.Leaves {
-					if strings.HasPrefix(l, "dead("+nodeName(victim)+",") && !strings.HasSuffix(l, "from="+nodeName(victim)+")") {
-						own = true
+				Bi := s.bound(v.nAt[i])
+				d, ok := v.removed[i]
+				if !ok || d > Bi {
+					x.Verdict = "crashed-member-not-removed-in-time"
+					x.Msg = fmt.Sprintf("%s still lists %s %v after the crash (bound %v, removed=%v at %v)", nodeName(i), nodeName(v.idx), c.since()-v.at, Bi, ok, d)
+					return
+				}
+				if d > worst {
+					worst = d
+				}
+				leaves := 0
+				for _, ev := range c.nodes[i].Ev.Log {
+					if ev.Kind == "leave" && ev.Name == nodeName(v.idx) {
+						leaves++
 					}
 				}
+				if leaves != 1 {
+					x.Verdict, x.Msg = "leave-event-count", fmt.Sprintf("%s delivered %d leave events for the crashed member %s", nodeName(i), leaves, nodeName(v.idx))
+					return
+				}
 			}
-			anyListed := false
-			for _, v := range listedAtCrash {
-				anyListed = anyListed || v
-			}
-			if anyListed && !own && s.N > 2 {
-				x.Verdict, x.Msg = "no-own-evidence-death", "no survivor gossiped a dead message about the crashed member"
+			// own evidence: some survivor declared the death itself
+			if !s.Cfg.Enc {
+				own := false
+				for _, w := range c.Wire {
+					for _, l := range w.Leaves {
+						if strings.HasPrefix(l, "dead("+nodeName(v.idx)+",") && !strings.HasSuffix(l, "from="+nodeName(v.idx)+")") {
+							own = true
+						}
+					}
+				}
+				anyListed := false
+				for _, l := range v.listed {
+					anyListed = anyListed || l
+				}
+				if anyListed && !own && nSurv > 1 {
+					x.Verdict, x.Msg = "no-own-evidence-death", "no survivor gossiped a dead message about the crashed member "+nodeName(v.idx)
+				}
 			}
 		}
 		// survivors must not have removed each other at the horizon
-		for i := 0; i < s.N-1; i++ {
-			for j := 0; j < s.N-1; j++ {
+		for i := 0; i < nSurv; i++ {
+			for j := 0; j < nSurv; j++ {
 				if i != j && !listed(c.nodes[i].node, nodeName(j)) && x.Verdict == "" {
 					rec := findRec(c.nodes[i].M.VSnapshot(), nodeName(j))
 					if rec != nil && rec.State != ml.StateSuspect {
@@ -588,6 +607,36 @@ func TestC03(t *testing.T) {
 					}
 				})
 			}
+		}
+	}
+	// two members crash, the second inside the detection of the first (its probe, its suspicion window,
+	// after its death was announced)
+	for ci, cf := range cfgs[:2] {
+		for _, c2 := range []int{300, 1700, 4100} {
+			if !thorough() && ci == 1 && c2 != 1700 {
+				continue
+			}
+			s := detScn{N: 4, Cfg: cf, CrashMs: 1250, Crash2: c2}
+			sidx := (ci*100+c2)*104729 + 4
+			exploreN(rep, 1, &sidx, func(prefix []int) nExec {
+				s2 := s
+				s2.Prefix = prefix
+				journal("C03 detect %+v", s2)
+				return runDetect(t, s2)
+			}, func(x nExec) {
+				detExecs++
+				rep.Transitions += len(x.Pts)
+				digests["det2:"+x.Digest] = true
+				if x.Verdict != "" {
+					s2 := s
+					s2.Prefix = x.Choices
+					s2.Devs = devStr(x.Pts)
+					rep.Violate("detection:"+x.Verdict, fmt.Sprintf("n=4 cfg=%s crash@1250ms second crash +%dms: %s; deviations %v", cf.Name, c2, x.Msg, devStr(x.Pts)), c03Replay{Det: &s2})
+					rep.Outcome("violation:" + x.Verdict)
+					return
+				}
+				rep.Outcome("both-detected-in-time")
+			})
 		}
 	}
 	rep.Extra["detection_executions"] = detExecs
